@@ -2,7 +2,7 @@
    Statements only; every proof is [exact <lemma of Alg/Helpers_*_proofs.v>].
    Model: Alg/Helpers.v (exact rationals; Python values = [pv], dict = insertion-ordered association list with
    pairwise different keys, exceptions = [Err kind]).  Every theorem is for all inputs of the stated shape.
-   Not theorems (correspondence + Python oracle only, see c20.claim.json): build_node_data_dict,
+   Not theorems (correspondence + Python oracle only, see c20.claim.json):
    replace_dict_numeric_string_keys, replace_dict_null_keys, nearest_dict_value, the identity
    "Irwin-Hall closed form = cdf of the sum of uniforms" (kept as an oracle identity; tests below). *)
 From Coq Require Import String Permutation Sorted.
@@ -116,6 +116,18 @@ Theorem C20_ensure_dict_for_nodes nodes dflt : nodup_keys nodes ->
   (forall l, length l <> length nodes -> ensure_dict_for_nodes (PList l) nodes dflt = Err ValueError).
 Proof. exact (ensure_dict_for_nodes_doc nodes dflt). Qed.
 
+(* build_node_data_dict: for pairwise different node indices and attribute names, data_dict[n] lists for every attribute a
+   (in order) the documented value [doc_value]: default (or None) for a None attribute, attribute_dict[a][n] or the
+   default for a dict, the k-th entry for a list of the right length (demand_list / probabilities only when nested),
+   the singleton itself otherwise; ValueError iff some list-like attribute has the wrong length *)
+Theorem C20_build_node_data_dict ad nodes dv : nodup_keys nodes -> nodup_fst ad -> (forall av, In av ad -> ~ bad_length nodes av) ->
+  build_node_data_dict ad nodes dv =
+  Ok (combine nodes (map (fun i_n => map (fun av => (fst av, doc_value dv av i_n)) ad) (combine (seq 0 (length nodes)) nodes))).
+Proof. exact (build_node_data_dict_ok ad nodes dv). Qed.
+Theorem C20_build_node_data_dict_bad_length ad nodes dv : (exists av, In av ad /\ bad_length nodes av) ->
+  build_node_data_dict ad nodes dv = Err ValueError.
+Proof. exact (build_node_data_dict_bad_length ad nodes dv). Qed.
+
 (* (6) sorters.  sort_dict_by_keys: for mutually comparable keys the output lists the values (or keys) of a
    permutation of the dict that is sorted by key with None first (ascending) / last (descending) *)
 Theorem C20_sort_dict_by_keys d asc rv : nodup_fst d -> homog d ->
@@ -128,30 +140,16 @@ Theorem C20_sort_dict_by_keys_mixed d asc rv :
   (exists kv, In kv d /\ key_is_num (fst kv) = true) -> (exists kv, In kv d /\ key_is_str (fst kv) = true) ->
   sort_dict_by_keys d asc rv = Err TypeError.
 Proof. exact (sort_dict_by_keys_mixed d asc rv). Qed.
-(* sort_nested_dict_by_keys — full statement (NOT proved): the flattened entries come out strongly sorted by the
-   documented lexicographic order (None first at both levels). *)
-Definition nested_doc_le (x y : (pkey * pkey) * pv) : Prop :=
-  if key_eqb (fst (fst x)) (fst (fst y)) then key_doc_le (snd (fst x)) (snd (fst y))
-  else key_doc_le (fst (fst x)) (fst (fst y)).
-Definition C20_sort_nested_dict_by_keys_statement : Prop :=
-  forall d (asc rv : bool) fl, flatten_nested d = Ok fl ->
+(* sort_nested_dict_by_keys: when no number has to be compared with a str (no TypeError), the output lists the values
+   (or (key1, key2) pairs) of a permutation of the flattened entries that is strongly sorted by the documented
+   lexicographic order [nested_doc_le] (None first at both levels), reversed when descending *)
+Theorem C20_sort_nested_dict_by_keys d (asc rv : bool) fl : flatten_nested d = Ok fl ->
   (forall x y, In x fl -> In y fl -> pair_cmp_raises (fst x) (fst y) = false) ->
-  exists es, sort_nested_dict_by_keys d asc rv = Ok (map (fun kv => if rv then snd kv else PList [pv_of_key (fst (fst kv)); pv_of_key (snd (fst kv))]) es) /\
-             Permutation es fl /\ StronglySorted (fun x y => if asc then nested_doc_le x y else nested_doc_le y x) es.
-(* proved part: the output is a permutation of the flattened entries in which every ADJACENT pair is in order
-   w.r.t. the code's tuple comparison [pair_ltb] (missing: transitivity of the lexicographic order, i.e. Sorted -> StronglySorted,
-   and the identification of [pair_ltb] with [nested_doc_le]) *)
-Theorem C20_sort_nested_dict_by_keys_partial d (asc rv : bool) fl : flatten_nested d = Ok fl ->
-  (forall x y, In x fl -> In y fl -> pair_cmp_raises (fst x) (fst y) = false) ->
-  let s := isort (fun x y => pair_ltb (fst x) (fst y)) fl in
-  let es := if asc then s else rev s in
-  let dflt := ((KNone, KNone), PNone) in
-  sort_nested_dict_by_keys d asc rv = Ok (map (fun kv => if rv then snd kv else PList [pv_of_key (fst (fst kv)); pv_of_key (snd (fst kv))]) es) /\
-  Permutation es fl /\
-  forall i, (S i < length es)%nat ->
-    if asc then pair_ltb (fst (nth (S i) es dflt)) (fst (nth i es dflt)) = false
-    else pair_ltb (fst (nth i es dflt)) (fst (nth (S i) es dflt)) = false.
-Proof. exact (sort_nested_partial d asc rv fl). Qed.
+  exists es,
+    sort_nested_dict_by_keys d asc rv = Ok (map (fun kv => if rv then snd kv else PList [pv_of_key (fst (fst kv)); pv_of_key (snd (fst kv))]) es) /\
+    Permutation es fl /\
+    StronglySorted (fun x y => if asc then nested_doc_le x y else nested_doc_le y x) es.
+Proof. exact (sort_nested_spec d asc rv fl). Qed.
 
 (* (7) key rewriters / predicates / rounding / list comparison *)
 Theorem C20_change_dict_key (d : dict pv) old_key new_key : nodup_fst d ->
@@ -243,9 +241,11 @@ Print Assumptions C20_min_of_dict.
 Print Assumptions C20_ensure_list_for_time_periods.
 Print Assumptions C20_ensure_list_for_nodes.
 Print Assumptions C20_ensure_dict_for_nodes.
+Print Assumptions C20_build_node_data_dict.
+Print Assumptions C20_build_node_data_dict_bad_length.
 Print Assumptions C20_sort_dict_by_keys.
 Print Assumptions C20_sort_dict_by_keys_mixed.
-Print Assumptions C20_sort_nested_dict_by_keys_partial.
+Print Assumptions C20_sort_nested_dict_by_keys.
 Print Assumptions C20_change_dict_key.
 Print Assumptions C20_is_integer.
 Print Assumptions C20_is_iterable.
